@@ -201,6 +201,8 @@ type anyCase struct {
 	Location  string    `json:"location,omitempty"`
 	Legit     string    `json:"harness_signature_check,omitempty"`
 	Readings  []reading `json:"location_readings,omitempty"`
+
+	armedStale bool
 }
 
 // armed error codes (for the coverage floor): code -> cases in which /callback was reached with that
@@ -335,11 +337,14 @@ func (rn *runner) runAny(i int) {
 	uc := anyCase{Index: i, Config: cfg.Kind, Roots: cfg.Roots, Route: route, Err: es.class}
 
 	// ---- redirect material
-	uc.Mode = pick(r, "valid-signature", 40, "signature-sweep", 25, "unsigned", 35)
-	if uc.Mode == "signature-sweep" && r.Intn(2) == 0 {
+	uc.Mode = pick(r, "valid-signature", 36, "signature-sweep", 18, "just-stale", 16, "unsigned", 30)
+	if uc.Mode == "signature-sweep" && r.Intn(2) == 0 || uc.Mode == "just-stale" {
 		ti = goodTemplates[r.Intn(len(goodTemplates))]
 	}
-	ss := rn.genSigned(r, base, uc.Mode != "signature-sweep", ti)
+	ss := rn.genSignedMode(r, base, uc.Mode == "valid-signature" || uc.Mode == "unsigned", uc.Mode == "just-stale", ti)
+	for uc.Mode == "just-stale" && ss.dup != "single" {
+		ss = rn.genSignedMode(r, base, false, true, ti)
+	}
 	if uc.Mode == "unsigned" {
 		var ps []kv
 		for _, p := range ss.pairs {
@@ -357,6 +362,15 @@ func (rn *runner) runAny(i int) {
 	uc.Shape = naturalShape(r, route)
 	if r.Intn(100) < 12 {
 		uc.Shape = naturalShape(r, "")
+	}
+	if uc.Mode == "just-stale" && r.Intn(100) < 85 {
+		// mostly where the route reads its signature from, so that only the age stands in the way
+		switch route {
+		case "sign_in", "sign_out":
+			uc.Shape = "direct"
+		case "start":
+			uc.Shape = "nested"
+		}
 	}
 	var second *sigSet
 	if r.Intn(100) < 40 {
@@ -397,8 +411,10 @@ func (rn *runner) runAny(i int) {
 	if route == "sign_in" {
 		cidP = 100
 	}
+	cid := "none"
 	if r.Intn(100) < cidP {
-		switch pick(r, "right", 90, "wrong", 5, "missing", 5) {
+		cid = pick(r, "right", 90, "wrong", 5, "missing", 5)
+		switch cid {
 		case "right":
 			pairs = append([]kv{{K: "client_id", V: as.ClientID}, {K: "response_type", V: "code"}}, pairs...)
 		case "wrong":
@@ -676,6 +692,10 @@ func (rn *runner) runAny(i int) {
 		}
 	}
 
+	// stale by a small margin and otherwise acceptable: a fresh timestamp would have been honoured
+	uc.armedStale = uc.Mode == "just-stale" && form == "canonical" && (uc.HostVar == "own" || uc.HostVar == "own+x-forwarded-host") &&
+		(uc.Shape2 == "" || !strings.HasSuffix(uc.Shape2, "(first)")) &&
+		((route == "sign_in" && uc.Shape == "direct" && cid == "right") || (route == "sign_out" && uc.Shape == "direct") || (route == "start" && uc.Shape == "nested"))
 	site := route
 	if form != "canonical" {
 		site += "(path-variant)"
@@ -956,6 +976,12 @@ func (rn *runner) judgeAnyResponse(i int, site, route, form string, rs *sut.Resp
 	kc := uc
 	kc.Legit = legitNames[anySt] + " (" + anyWhy + ")"
 	kc.Location = trunc(loc, 600)
+	if uc.armedStale && anyWhy == "stale-ts" {
+		rep.Count("any_just_stale_judged_"+route+"_"+uc.Method, 1)
+		if len(acted) == 0 && rs.Status >= 400 {
+			rep.Count("just_stale_refused", 1)
+		}
+	}
 	for _, kind := range acted {
 		st, why := anySt, anyWhy
 		if u := usedURI(loc, supplied); u >= 0 && kind != "idp-login" {
